@@ -37,7 +37,7 @@ type String struct {
 // Array is an array object.
 type Array []Object
 
-// Dict is a dictionary object. Keys lists the keys in file order.
+// Dict is a dictionary object (duplicate keys are reported as Problems by Parse).
 type Dict map[Name]Object
 
 // Stream is a stream object. Raw holds the Length bytes following the stream keyword (or, if
